@@ -112,10 +112,10 @@ def run_segment(seg):
         orig = FIU.__dict__["all_store_paths"].__func__
         depth = [0]
 
-        def wrapped(cls, fi):
+        def wrapped(cls, fi, *a, **k):
             depth[0] += 1
             try:
-                r = orig(cls, fi)
+                r = orig(cls, fi, *a, **k)
             finally:
                 depth[0] -= 1
             if depth[0] == 0:
